@@ -99,11 +99,13 @@ class SwitchWriteHandler(AbstractWriteHandler):
                     with Blk(self.decompiler, False):
                         logger.debug("... NOW block for cases.")
                         # If this will be visited multiple times, we need a label
+                        # (Switch ids and edge indices start again in every routine, label names are shared by all routines
+                        # of the file: the offset of the switch operation makes the name unique.)
                         if e in edges_that_will_be_visited_multiple_times and e not in already_printed_edges:
-                            self.decompiler.write_stmnt(f"@switch{m.switch_id}_{e.index};")
+                            self.decompiler.write_stmnt(f"@switch{op.offset}_{e.index};")
                         if e in already_printed_edges:
                             # Write the label jump instead
-                            self.decompiler.write_stmnt(f"jump @switch{m.switch_id}_{e.index};")
+                            self.decompiler.write_stmnt(f"jump @switch{op.offset}_{e.index};")
                         else:
                             already_printed_edges.add(e)
                             # Print a switch case branch
